@@ -3305,6 +3305,59 @@ func (r *Report) ShuffleShape(key, fnKey string) {
 		r.Bad(k, d, w.FnPos(fn), "selected member is not members[idx[draw]]")
 		return
 	}
+	// the auxiliary array holds POSITIONS of the eligible list: it is filled with idx[j] = j, and the selected element is
+	// members[idx[draw]] with no arithmetic between the two index operations (seed C09-6 shuffled member ids and used
+	// members[id-1], which is a position only while every member of the group is eligible)
+	var aux ssa.Value
+	for _, b := range fn.Blocks {
+		for _, in := range b.Instrs {
+			if ia, ok := in.(*ssa.IndexAddr); ok && seeThrough(ia.Index) == ssa.Value(rem) {
+				aux = ia.X
+			}
+		}
+	}
+	if aux == nil {
+		r.Bad(k, d, w.posOr(rem.Pos(), fn), "no array indexed by the draw")
+		return
+	}
+	identity := false
+	for _, b := range fn.Blocks {
+		for _, in := range b.Instrs {
+			st, ok := in.(*ssa.Store)
+			if !ok {
+				continue
+			}
+			if ia, ok := st.Addr.(*ssa.IndexAddr); ok && ia.X == aux && seeThrough(ia.Index) != ssa.Value(rem) && seeThrough(st.Val) == seeThrough(ia.Index) {
+				identity = true
+			}
+		}
+	}
+	if _, isMake := aux.(*ssa.MakeSlice); !isMake || !identity {
+		r.Bad(k, d, w.posOr(rem.Pos(), fn), "the shuffled array is not a fresh slice filled with idx[j] = j (positions of the eligible list): "+clip(Render(aux).String(), 120))
+		return
+	}
+	direct := false
+	for _, b := range fn.Blocks {
+		for _, in := range b.Instrs {
+			ia, ok := in.(*ssa.IndexAddr)
+			if !ok || ia.X == aux {
+				continue
+			}
+			if !Render(ia.X).Has("call:Keeper.GetAvailableMembers") {
+				continue
+			}
+			// index operand: a load of aux[draw], possibly converted - but no arithmetic
+			if u, ok := seeThrough(ia.Index).(*ssa.UnOp); ok && u.Op == token.MUL {
+				if ja, ok := u.X.(*ssa.IndexAddr); ok && ja.X == aux && seeThrough(ja.Index) == ssa.Value(rem) {
+					direct = true
+				}
+			}
+		}
+	}
+	if !direct {
+		r.Bad(k, d, w.posOr(rem.Pos(), fn), "the selected member is not members[idx[draw]] (the drawn slot's content used directly as the position)")
+		return
+	}
 	r.OK(k, d, w.Pos(rem.Pos()), "shape matches")
 }
 
